@@ -32,7 +32,8 @@ What is proved (for EVERY `n`, `w`, `l` with `closure n w = .ok l`; no size boun
                                      cube, any `h`, reduced or not, UNCONDITIONALLY;
  * `canon_is_cycle_closure_refsigns` — the same phrased with the state computed from `KhRef.crossingSigns`.
 
-NOT proved here (remains the driver's per-instance check, see the final comment): that the colours which
+NOT proved HERE (now proved in `Props/C06Walk.lean`: `canon_reply_flags_closure`, `canon_reply_string_closure`; the
+paragraph and the final comment below record what was missing at the time): that the colours which
 `C06Canon.coloredSeifertCircles` (walk model of `Link::seifert_circles` + BFS) assigns are the parity colours or their
 swap.  That needs (a) a specification of the walk model `componentsOf` (its paths = the classes of the arc relation),
 which exists for no diagram yet, and (b) connectedness of the Seifert graph of a knot closure (every `σ_g`, `g + 1 < n`,
@@ -246,7 +247,7 @@ example : KhRef.crossingSigns (toKh trefoilB) = some #[1, 1, 1] :=
     (C18.determined_of_B (closure_valid' _ _ _ closure_trefoilB) (by decide +kernel))).1
 
 /-
-WHAT REMAINS for an unconditional `canon_reply_dz` on closures.  `Drv/C06.canonReply` builds its chains from
+WHAT REMAINED for an unconditional `canon_reply_dz` on closures (all of it is done in `Props/C06Walk.lean`).  `Drv/C06.canonReply` builds its chains from
 `C06Canon.canonCyclesAt`, whose colours are `coloursInRefOrder cc …` with `cc` from `coloredSeifertCircles` (the walk
 model of `Link::seifert_circles` + the BFS of `colored_seifert_circles`).  `canon_reply_dz` needs, for that `cc`, the
 driver's checks `crossingsBicoloured` and `sets`.  To derive them for closures one needs
